@@ -60,6 +60,7 @@ pub fn run_check(id: &str, r: &mut Report, ctx: &Ctx) -> bool {
         "C14" => checks::c14::run(r, ctx),
         "C08" => checks::c08::run(r, ctx),
         "C09" => checks::c09::run(r, ctx),
+        "C15" => checks::c15::run(r, ctx),
         #[cfg(feature = "serde")]
         "C16" => checks::c16::run(r, ctx),
         "C17" => checks::c17::run(r, ctx),
@@ -83,6 +84,7 @@ pub fn replay(id: &str, case: &serde_json::Value) -> Result<(), String> {
         "C14" => checks::c14::replay(case),
         "C08" => checks::c08::replay(case),
         "C09" => checks::c09::replay(case),
+        "C15" => checks::c15::replay(case),
         #[cfg(feature = "serde")]
         "C16" => checks::c16::replay(case),
         "C17" => checks::c17::replay(case),
